@@ -8,7 +8,10 @@ package harness
 import (
 	"flag"
 	"fmt"
+	"sort"
+	"strconv"
 	"strings"
+	"testing"
 	"time"
 
 	"pgregory.net/rapid"
@@ -275,6 +278,118 @@ func c08Units(tier string, seed int64) []Unit {
 			}
 		}
 	}
+	// actions built by StateMachineActions from the methods of a type: the entry named N runs method N
+	// (both accepted signatures, several methods of each), nothing else becomes an action
+	units = append(units, Unit{Name: "C08/StateMachineActions/many-methods", Run: func(c *Ctx) {
+		for bi, base := range []func(int) uint64{BaseZero, BaseOnes, BaseMid} {
+			e := &BitDFS{Base: base, Depth: 24, MaxDev: 2, Alpha: LevelAlpha(AlphaAll(3, AlphaEdge), AlphaAll(2, AlphaCoin)), MaxExecs: 60000}
+			if !quick {
+				e.Depth, e.MaxDev, e.MaxExecs = 30, 3, 1000000
+			}
+			e.Explore(c, func(src *Source, devs int) {
+				tr := &c08Trace{}
+				m := &c08Machine{tr: tr}
+				tbl := NewTB("C08")
+				actions := rapid.StateMachineActions(m)
+				var keys []string
+				for k := range actions {
+					keys = append(keys, k)
+				}
+				sort.Strings(keys)
+				replay := map[string]any{"engine": "bitdfs", "machine": "c08Machine", "base": bi, "answers": src.Trace}
+				if got := strings.Join(keys, ","); got != ",A1,A2,B1,B2,B3" {
+					c.Violate(Violation{Sig: "C08 StateMachineActions-wrong-action-set", Detail: fmt.Sprintf("actions %q, want the invariant \"\" and A1,A2,B1,B2,B3", got), Replay: replay, Devs: devs})
+					return
+				}
+				res := rapid.VerifRunSource(tbl, src, true, func(t *rapid.T) { t.Repeat(actions) })
+				trace := strings.Join(tr.ev, " ")
+				c.Outcome(kindName(res.Kind)+" "+trace, strings.Contains(trace, "A:"))
+				if msg := c08Monitor(tr.ev, true); msg != "" {
+					c.Violate(Violation{Sig: "C08 discipline " + sigOf(msg), Detail: msg + "\ntrace: " + trunc(trace, 400), Replay: replay, Devs: devs})
+				}
+				// every executed method is the one whose name was drawn as the action key just before it
+				var drawn []string
+				for _, ev := range tbl.Events {
+					if ev.Kind == "log" && strings.HasPrefix(ev.Text, "[rapid] draw action: ") {
+						k, _ := strconv.Unquote(strings.TrimSpace(strings.TrimPrefix(ev.Text, "[rapid] draw action: ")))
+						drawn = append(drawn, k)
+					}
+				}
+				var ran []string
+				for _, ev := range tr.ev {
+					if strings.HasPrefix(ev, "A:") {
+						ran = append(ran, ev[2:])
+					}
+				}
+				if strings.Join(ran, ",") != strings.Join(drawn, ",") {
+					c.Violate(Violation{Sig: "C08 another-action-ran", Detail: fmt.Sprintf("action keys drawn: %v\nmethods that ran:   %v", drawn, ran), Replay: replay, Devs: devs})
+				}
+			})
+		}
+	}})
+	// histories that end in a stuck machine: a step completes, then an action's first draw gives up (its
+	// Filter runs out of tries: invalid data, not a skip), and from then on every action skips before
+	// drawing. Repeat must then report "no valid action" and not return normally.
+	for _, withStep := range []bool{false, true} {
+		withStep := withStep
+		units = append(units, Unit{Name: fmt.Sprintf("C08/give-up-then-stuck/completed-step-first=%v", withStep), Run: func(c *Ctx) {
+			never := rapid.Bool().Filter(func(bool) bool { return false })
+			for bi, base := range []func(int) uint64{BaseZero, BaseOnes, BaseMid} {
+				e := &BitDFS{Base: base, Depth: 16, MaxDev: 2, Alpha: LevelAlpha(AlphaAll(2, AlphaEdge), AlphaAll(2, AlphaCoin)), MaxExecs: 30000}
+				if !quick {
+					e.Depth, e.MaxDev, e.MaxExecs = 24, 3, 600000
+				}
+				e.Explore(c, func(src *Source, devs int) {
+					tr := &c08Trace{}
+					phase := 0
+					if !withStep {
+						phase = 1
+					}
+					stuckTries := 0
+					actions := map[string]func(*rapid.T){
+						"": func(t *rapid.T) { tr.log("I:ok") },
+						"a": func(t *rapid.T) {
+							tr.log("A:a")
+							switch phase {
+							case 0:
+								rapid.Bool().Draw(t, "b")
+								phase = 1
+								tr.log("E:ok")
+							case 1:
+								phase = 2
+								tr.log("E:skip") // for the monitor an abandoned action is like a skipped one
+								never.Draw(t, "never")
+							default:
+								stuckTries++
+								tr.log("E:skip")
+								t.Skip("stuck")
+							}
+						},
+						"b": func(t *rapid.T) {
+							tr.log("A:b")
+							if phase == 2 {
+								stuckTries++
+							}
+							tr.log("E:skip")
+							t.Skip("never applicable")
+						},
+					}
+					res := rapid.VerifRunSource(tb, src, false, func(t *rapid.T) { t.Repeat(actions) })
+					trace := strings.Join(tr.ev, " ")
+					c.Outcome(fmt.Sprintf("%s phase=%d stuck=%v %d", kindName(res.Kind), phase, stuckTries > 0, len(tr.ev)), stuckTries > 0)
+					replay := map[string]any{"engine": "bitdfs", "scenario": "give-up-then-stuck", "withStep": withStep, "base": bi, "answers": src.Trace}
+					if msg := c08Monitor(tr.ev, true); msg != "" {
+						c.Violate(Violation{Sig: "C08 discipline " + sigOf(msg), Detail: msg + "\ntrace: " + trunc(trace, 400), Replay: replay, Devs: devs})
+					}
+					if stuckTries > 0 && !src.Ended && !(res.Kind == rapid.VerifFail && strings.Contains(res.Msg, "can't find a valid (non-skipped) action")) {
+						c.Violate(Violation{Sig: "C08 no-failure-when-no-action-can-run history=give-up-then-stuck",
+							Detail: fmt.Sprintf("after an action whose draw gave up, every action skips before drawing (%d tries seen), yet Repeat ended with %s %q\ntrace: %s", stuckTries, kindName(res.Kind), res.Msg, trunc(trace, 400)),
+							Replay: replay, Devs: devs})
+					}
+				})
+			}
+		}})
+	}
 	// unusual step budgets: the initial invariant check does not depend on -rapid.steps / -short
 	units = append(units, Unit{Name: "C08/step-budgets", Run: func(c *Ctx) {
 		defer flag.Set("rapid.steps", "30")
@@ -374,3 +489,27 @@ func init() {
 		Budget:      map[string]time.Duration{"quick": 55 * time.Second, "thorough": 20 * time.Minute},
 	})
 }
+
+// c08Machine: a state machine type for StateMachineActions with several methods of both accepted
+// signatures, and public methods that are not actions.
+type c08Machine struct{ tr *c08Trace }
+
+func (m *c08Machine) act(name string, skip func() bool, t rapid.TB) {
+	m.tr.log("A:" + name)
+	if skip != nil && skip() {
+		m.tr.log("E:skip")
+		t.Skip("not now")
+	}
+	m.tr.log("E:ok")
+}
+func (m *c08Machine) A1(t *rapid.T) { m.act("A1", nil, t) }
+func (m *c08Machine) A2(t *rapid.T) {
+	m.act("A2", func() bool { return rapid.Bool().Draw(t, "skip") }, t)
+}
+func (m *c08Machine) B1(t rapid.TB)           { m.act("B1", nil, t) }
+func (m *c08Machine) B2(t rapid.TB)           { m.act("B2", nil, t) }
+func (m *c08Machine) B3(t rapid.TB)           { m.act("B3", nil, t) }
+func (m *c08Machine) Check(t *rapid.T)        { m.tr.log("I:ok") }
+func (m *c08Machine) NotAnAction(n int)       {}
+func (m *c08Machine) AlsoNot(t *testing.T)    {}
+func (m *c08Machine) NorThis() func(*rapid.T) { return nil }
